@@ -53,8 +53,8 @@ def cmd_run(mid, checks):
             results[c] = {'exit': r.returncode, 'violation_lines': lines[:3], 'wall_s': round(time.time() - t0, 1)}
             print(mid, c, 'exit', r.returncode, lines[:2])
     finally:
-        sh('git -C /repo checkout -- .')
         sh('git -C /repo reset -q')
+        sh('git -C /repo checkout -- .')
     meta['runs'] = [x for x in meta.get('runs', []) if x.get('checks') != checks]
     meta['runs'].append({'checks': checks, 'results': results, 'caught': any(v['exit'] == 1 for v in results.values()),
                          'repo_head': sh('git -C /repo rev-parse --short HEAD').stdout.strip()})
